@@ -32,6 +32,7 @@ inductive Js where
   | ret (e : Js)                                     -- return e;
   | ite (c t e : Js)                                 -- if (c) {t} else {e}
   | fdecl (f : String) (ps : List String) (body : Js) -- function f(ps){body}
+  | loop (i : String) (k n : Nat) (body : Js)        -- for (var i = k; i < n; i++) {body}   (k = 0 in source programs)
 deriving Repr, Inhabited, DecidableEq
 
 /-! ## The listener -/
@@ -159,6 +160,7 @@ def listen (n : Names) : Js → Except LErr (Names × List String)
   | .fdecl _ ps body => do
       let (n1, k1) ← listen (shadowParams n.push ps) body
       .ok (n1.pop, k1)
+  | .loop _ _ _ body => listen n body      -- the body is walked ONCE; `var i = 0`, `i < n`, `i++` fire no handler
 
 def initNames : Names := { glob := ["inputs"] }
 
@@ -394,6 +396,12 @@ def eval : Nat → List Nat → Js → St → Option (Res × St)
         | none => none
     | .fdecl f ps body =>
         some (.normal .undef, { st with heap := declareVar st.heap (sc.headD 0) f (some (.clo ps body sc)) })
+    | .loop i k n body =>
+        if n ≤ k then some (.normal .undef, { st with heap := declareVar st.heap (sc.headD 0) i (some (.num n)) })
+        else match eval fuel sc body { st with heap := declareVar st.heap (sc.headD 0) i (some (.num k)) } with
+          | some (.returned v, st1) => some (.returned v, st1)
+          | some (.normal _, st1) => eval fuel sc (.loop i (k + 1) n body) st1
+          | none => none
 
 /-- argument lists are `seq a (seq b … skip)`, evaluated left to right -/
 def evalArgs : Nat → List Nat → Js → St → Option (List Val × St)
@@ -491,6 +499,7 @@ def bodyOk (n : Names) (loc : List String) : Js → Bool
   | .fdecl _ _ _ => false
   | .fexpr _ _ => false
   | .call _ _ => false
+  | .loop _ _ _ _ => false
   | .num m => pureOk n loc false (fun _ _ _ => false) (.num m)
   | .str m => pureOk n loc false (fun _ _ _ => false) (.str m)
   | .ident m => pureOk n loc false (fun _ _ _ => false) (.ident m)
@@ -525,6 +534,9 @@ def topOk (cnd : Bool) (n : Names) : Js → Bool
        | .ok (n2, _) => topOk true n2 e
        | .error _ => false)
   | .fdecl _ ps body => bodyOk (shadowParams n.push ps) ps body
+  | .loop _ _ _ body =>
+      -- the listener walks the body once: the names must not change over an iteration (no loop-carried alias)
+      topOk true n body && (match listen n body with | .ok (n1, _) => n1 == n | .error _ => false)
   | .num m => pureTop n (.num m)
   | .str m => pureTop n (.str m)
   | .ident m => pureTop n (.ident m)
